@@ -81,6 +81,13 @@ CHECKS = {
              'a sample through the real binary; malformed lists must be rejected.',
         note='trusted: ref/script.py mock semantics (a non-listed signature for a listed key may be evaluated normally or simply fail)',
         ref='5 C11'),
+    'C12': dict(
+        technique='runtime monitoring: reference-decoding monitor over scripted interactive sessions of the real btcdeb (print / step echo / vdump hook) at every prefix of steps and rewinds (ASan+UBSan build)',
+        text='Exploration: sessions over plain scripts, plain P2SH-template scripts and --tx/--txin spends of every output type (legacy with scriptPubKey and P2SH sections, P2WPKH preamble, P2WSH, taproot key path, tapscript with path lengths 0..3 and 128) '
+             'are driven through the real command table; after every step/rewind the listing must equal the reference decoding in execution order (with section headers and one line per commitment step), the marked line must be the operation that the next step '
+             'really executes (compared with the opcode/push value the implementation reports it executed), and nothing may be marked after the last operation.',
+        note='trusted: ref decoding (ref/script.py), the vdump hook (reads env->opcode / vchPushValue / curr_op_seq / count); opcode spelling not prescribed',
+        ref='5 C12'),
     'C13': dict(
         technique='runtime monitoring: independent-codec monitor over parse_tx / parse_transaction in the harness and btcdeb -v --tx (ASan+UBSan build)',
         text='Exploration: generated transactions (0..6 inputs/outputs, compact-size boundaries 252/253/65535/65536, witness present/absent/mixed, extreme versions and values) are parsed by the real code; all fields, txid, wtxid and both re-encodings must equal the '
